@@ -18,7 +18,15 @@ class P(vlib.Prop):
             "must EQUAL Model/Resolver.v (a function of universe, world and initial disqualification set: the install_if loop walks the dependency list by index since fix "
             "c03e0c0, no schedule is searched any more) and the verified validator closed_check runs on the IMPLEMENTATION's list. A validator failure "
             "inside the envelope is tagged in-envelope/... and is always a VIOLATION. A case is non-trivial when some world resolves to two or more packages; "
-            "distinct = distinct case terms.")
+            "distinct = distinct case terms. Session 6: a fourth generated stream aims at the WIDER envelope of c02_closed_multi_version (1-4 versions per name in ascending apk order, "
+            "virtuals provided by several versions of one name with growing / shared / no provided version, versioned dependencies and requests that the best version passes, "
+            "unversioned and below-every-version conflict entries, several unpinned repositories, shuffled index order; practically every run of it is inside the envelope, ~93% succeed); "
+            "there a closure failure or a member that is not the winner of its name is tagged in-multi-envelope/... and is always a VIOLATION. The conflict clause "
+            "(no member excluded by a conflict entry of another member) is validated on every implementation result (tags conflict/..., findings C02-F7/F7b/F7c). New corpus cases: C02-F1 "
+            "through the origin preference and through a pinned sibling (the witnesses of clause 4), the Example universe of the wider envelope, conflict entries read too late / versioned / on a "
+            "provided name / self-excluding, conflict entries against and of install_if members. The harness prints the distribution of universe shapes (versions per name, provider names and "
+            "packages per provided name, dependency and request operators, conflict entries, install_if, pins, cycles, self-dependencies, duplicates, priorities) and of outcomes (ok by result "
+            "size, error by innermost cause and by request/dependency) into the evidence and refuses to run if a required shape is missing in the tier.")
     stages = (
         dict(name="c02", cmd="c02", args=lambda t, s: ["-stage", "c02"]),
     )
@@ -32,7 +40,13 @@ class P(vlib.Prop):
         "cachedParseVersion / cachedResolvePackageNameVersionPin are memo tables of pure functions; the model parses each string once when the resolver is built",
         "version parsing, comparison and constraint parsing are the C03 model (Model/Version.v), tied to version.go by C03's own check",
     )
-    level_text = ("Theorems c02_nodup, c02_members_from_universe, c02_failure_is_error, c02_termination, c02_no_panic hold for every universe, world and initial disqualification set "
+    level_text = ("Session 6: c02_closed_multi_version — inside the wider envelope menvelope_b (several versions per name and several packages of one name per virtual; nine named, "
+                  "decidable clauses on (universe, world); initial disqualification set closed under 'a winner takes its siblings along') a successful result is Closed and every member is the "
+                  "winner of its name; c02_multi_envelope_minus_clause_refuted shows five of the clauses necessary by replays of F2, F1c, F1 (origin / pinned sibling), F4, F1, F5, F1b. Conflict "
+                  "entries: c02_conflict_validator_decides, c02_conflict_free_refuted (finding C02-F7), c02_conflict_entries_forward_partial and c02_disqualified_never_chosen (entries are "
+                  "honoured forward). c02_disqualify_conflicts_exact, c02_conflicting_version_table, c02_versioned_provide_excludes_other_providers, c02_pick, c02_selected_monotone state what "
+                  "disqualifyConflicts / conflictingVersion / pick guarantee, and c02_translated_functions_are_the_model ties exactly these three functions to the Go text (goextract translates "
+                  "them statement by statement on every run). Earlier: theorems c02_nodup, c02_members_from_universe, c02_failure_is_error, c02_termination, c02_no_panic hold for every universe, world and initial disqualification set "
                   "(unbounded) of an executable model of repo.go + filterPackages; c02_validator_decides proves the validator that is run on the "
                   "implementation's results; c02_closed is REFUTED by five kernel-checked witnesses (findings C02-F1..F5, each replayed on the real code) and "
                   "c02_closed_partial proves that INSIDE the envelope (no install_if, no dependency on a self-provided name, one provider per name, version operators only on "
@@ -41,11 +55,12 @@ class P(vlib.Prop):
                   "comparison of ordered install lists.")
     level_note = ("trusted: Coq kernel, goextract (version tables/regexes), Go harness/printer; modelled not verified: the Go text of repo.go/version.go:filterPackages; "
                   "dependency closure inside the envelope is proved of the model and, independently, checked per implementation output by the verified validator "
-                  "(any failure there is a VIOLATION); conflict entries (!name) are not requirements of Closed: a result may hold a package together with a member that excludes it "
-                  "(see C09-F6); correspondence is differential testing, not proof")
+                  "(any failure there is a VIOLATION), likewise inside the wider envelope; conflict entries (!name) are not requirements of Closed but a clause of their own (ConflictFree), "
+                  "which the code violates (C02-F7, cf. C09-F6) and honours only forward (proved); several provider NAMES under one virtual remain outside both envelopes; "
+                  "conflictingVersion, pick and disqualifyConflicts are translated from the source and proved equal to the model, the rest of repo.go is modelled by hand; "
+                  "correspondence is differential testing, not proof")
     design_ref = "DESIGN.md 7 C02, Appendix A.1"
-    modelled_not_verified = ("newPkgResolver, filterPackages, comparePackages (compare==nil stages), bestPackage, constrain, disqualifyProviders, disqualifyConflicts, "
-                             "conflictingVersion, pick, nextPackage, resolvePackage, getPackageDependencies, GetPackageWithDependencies, GetPackagesWithDependencies "
-                             "are modelled by hand in Model/Resolver.v; the operator tables, version regexes and enum values they use are regenerated from version.go on every run")
+    modelled_not_verified = ("newPkgResolver, filterPackages, comparePackages (compare==nil stages), bestPackage, constrain, disqualifyProviders, nextPackage, resolvePackage, getPackageDependencies, GetPackageWithDependencies, GetPackagesWithDependencies "
+                             "are modelled by hand in Model/Resolver.v (conflictingVersion, pick and disqualifyConflicts too, but those three are also translated from the source by goextract and proved equal to the model: Proofs/ResolveGenerated.v); the operator tables, version regexes and enum values they use are regenerated from version.go on every run")
 
 PROP = P()
